@@ -234,7 +234,7 @@ func TestC09Aging(t *testing.T) {
 		ses   *session
 		model *refmodel.Model
 	}
-	keys := []string{"g1", "g2", "g3", "g4", "g5"}
+	keys := []string{"g1", "g2", "g3", "g4", "g5", "g6", "g7", "g8"}
 	var envs []*env
 	for _, shape := range []string{"l1only", "l1l2+batch"} {
 		for _, l1 := range []string{"std", "chunked", "batched"} {
@@ -295,7 +295,13 @@ func TestC09Aging(t *testing.T) {
 			do(e, wire.Cmd{Kind: wire.Set, Key: "g3", Value: big, Flags: 3, Exptime: 5000}) &&
 			do(e, wire.Cmd{Kind: wire.Set, Key: "g4", Value: []byte("four"), Flags: 4, Exptime: 100, Port: batch}) &&
 			do(e, wire.Cmd{Kind: wire.Set, Key: "g5", Value: big, Flags: 5, Exptime: 400}) &&
-			do(e, wire.Cmd{Kind: wire.Touch, Key: "g5", Exptime: 500, Port: batch})
+			do(e, wire.Cmd{Kind: wire.Touch, Key: "g5", Exptime: 500, Port: batch}) &&
+			// the 30-day boundary: the largest relative TTL, and one second less
+			do(e, wire.Cmd{Kind: wire.Set, Key: "g6", Value: big, Flags: 6, Exptime: 2592000}) &&
+			do(e, wire.Cmd{Kind: wire.Set, Key: "g7", Value: []byte("seven"), Flags: 7, Exptime: 100}) &&
+			do(e, wire.Cmd{Kind: wire.Touch, Key: "g7", Exptime: 2592000}) &&
+			do(e, wire.Cmd{Kind: wire.Set, Key: "g8", Value: big, Flags: 8, Exptime: 50}) &&
+			do(e, wire.Cmd{Kind: wire.Gat, Key: "g8", Exptime: 2591999})
 		if ok {
 			check(e, "before the pause")
 		}
@@ -316,7 +322,10 @@ func TestC09Aging(t *testing.T) {
 			do(e, wire.Cmd{Kind: wire.Prepend, Key: "g2", Value: []byte("<late prepend>"), Port: batch}) &&
 			do(e, wire.Cmd{Kind: wire.Get, Keys: []string{"g3", "g5", "g1"}}) &&
 			do(e, wire.Cmd{Kind: wire.Append, Key: "g4", Value: []byte("<late append>")}) &&
-			do(e, wire.Cmd{Kind: wire.Prepend, Key: "g5", Value: []byte("<p>")})
+			do(e, wire.Cmd{Kind: wire.Prepend, Key: "g5", Value: []byte("<p>")}) &&
+			do(e, wire.Cmd{Kind: wire.Append, Key: "g6", Value: []byte("<a6>")}) &&
+			do(e, wire.Cmd{Kind: wire.Prepend, Key: "g7", Value: []byte("<p7>"), Port: batch}) &&
+			do(e, wire.Cmd{Kind: wire.Append, Key: "g8", Value: []byte("<a8>")})
 		if ok {
 			check(e, "after a 6 s pause followed by append/prepend/get")
 		}
